@@ -4,6 +4,7 @@ chains in every ordering, pull-based components spliced into links, listing/link
 Chains are listed from the SOURCE side to the CONSUMER side.
 """
 import itertools
+import math
 
 STEPS = [1, 2, 3, 5, 7, 8, 12]
 PUSH = ["lin", "next", "prev", "step", "avg", "sum"]
@@ -396,3 +397,24 @@ def gen_two_way(rnd):
     rnd.shuffle(link_order)
     return dict(comps=comps, links=links, order=order, link_order=link_order, start=0, end=rnd.choice([10, 20]),
                 meta=dict(n_time=len(comps), cyclic=True, n_pull=0, two_way=True))
+
+
+def gen_dpull_ring(rnd):
+    """two components coupled both ways, the cycle resolved by a delay-to-pull adapter: the consumer
+    behind it uses data from n of its own pulls ago; sufficient when n * step_A >= step_A + step_B"""
+    sa, sb = rnd.choice([(1, 2), (1, 1), (2, 3), (2, 1), (3, 5), (1, 3)])
+    n = math.ceil((sa + sb) / sa) + rnd.choice([0, 0, 1])
+    comps = [dict(name="c0", type="time", start=0, steps=[sa], nin=1, nout=1, initial_pull=False),
+             dict(name="c1", type="time", start=0, steps=[sb], nin=1, nout=1, initial_pull=rnd.random() < 0.5)]
+    pre = [[rnd.choice(PASS)]] if rnd.random() < 0.3 else []
+    links = [dict(src=["c1", 0], dst=["c0", 0], chain=pre + [["dpull", n, rnd.choice([0, 0, 1])]]),
+             dict(src=["c0", 0], dst=["c1", 0], chain=draw_chain(rnd, maxlen=1, allow_delay=False, allow_push=rnd.random() < 0.5))]
+    if rnd.random() < 0.4:
+        comps.append(dict(name="c2", type="time", start=0, steps=[rnd.choice([1, 2, 5])], nin=1, nout=1, initial_pull=True))
+        links.append(dict(src=[rnd.choice(["c0", "c1"]), 0], dst=["c2", 0], chain=[]))
+    order = list(range(len(comps)))
+    rnd.shuffle(order)
+    link_order = list(range(len(links)))
+    rnd.shuffle(link_order)
+    return dict(comps=comps, links=links, order=order, link_order=link_order, start=0, end=rnd.choice([15, 30]),
+                meta=dict(klass="dpull_ring", expect="ok", n_ring=2, cycles=1, n_pull=0))
